@@ -75,6 +75,7 @@ int cmd_worker(const std::map<std::string, std::string>& a) {
   int64_t key_mod = strtoll(get("key-mod", "1").c_str(), nullptr, 10);
   int want_samples = atoi(get("samples", "0").c_str());
   bool digests = a.count("digests") != 0;
+  g_cold_start = a.count("cold") != 0;
   common_init(prop.c_str());
   rt.seed = seed;
   Stats stats;
@@ -97,7 +98,8 @@ int cmd_worker(const std::map<std::string, std::string>& a) {
       ++violating;
       // Determinism gate, part 1: the same case again in this process must behave identically.
       Outcome o2;
-      if (o.poisoned) {
+      if (o.poisoned || g_cold_start) {
+        // (cold-start runs cannot be repeated in-process: the driver repeats them in two fresh processes)
         // Abandoned fibers may still hold library locks: nothing more can be executed in this process.
         o2 = o;
       } else {
@@ -156,9 +158,10 @@ int cmd_replay(const std::string& file, const std::map<std::string, std::string>
   CaseBox cb;
   if (!case_from_json(cj, &cb)) { fprintf(stderr, "bad case in %s\n", file.c_str()); return 2; }
   common_init(cb.property.c_str());
+  g_cold_start = cj.gets("mode") == "cold";
   begin_run(j.geti("run_index", j.geti("run", -1)));
   bool want_log = a.count("log") != 0;
-  int reps = a.count("twice") ? 2 : 1;
+  int reps = (a.count("twice") && !g_cold_start) ? 2 : 1;
   Outcome o;
   uint64_t h0 = 0;
   for (int r = 0; r < reps; ++r) {
